@@ -34,6 +34,19 @@ package capnp
 //@ 			return t.data[j] == atOldByte(func() byte { return t.data[j] })
 //@ 		})
 //@ }
+//@ // Frame of everything that may allocate: a Segment object that was in use keeps its message and
+//@ // id, and its data is either untouched or has grown to a word multiple within the size limit.
+//@ // Handles (Struct, List, Ptr) that were well formed therefore stay well formed.
+//@ func segKept(t *Segment) bool {
+//@ 	return t.msg == atOldMsg(func() *Message { return t.msg }) && t.id == SegmentID(atOldInt(func() int { return int(t.id) })) &&
+//@ 		(sameSlice(t.data, atOldBytes(func() []byte { return t.data })) ||
+//@ 			(len(t.data) >= atOldInt(func() int { return len(t.data) }) && M(len(t.data)) <= mMaxSeg() && len(t.data)&7 == 0))
+//@ }
+//@ func segsKept() bool {
+//@ 	return forallSegment(func(t *Segment) bool {
+//@ 		return implies(atOldBool(func() bool { return t.msg != nil }), segKept(t))
+//@ 	})
+//@ }
 //@ // Frame of every allocating operation on message m: every Segment object of another message is
 //@ // exactly as before; every Segment object of m that was in use never shrinks and keeps its bytes
 //@ func allocFrame(m *Message) bool {
